@@ -45,6 +45,26 @@ M = {
  "c13-grouped-break-rule": (SERVICE, "                if tx_with_cells.len() == limit\n                    && tx_with_cells.last_mut().unwrap().transaction.hash != tx_hash.unpack()", "                if tx_with_cells.len() == limit", ["C13"]),
  "c14-split-off-by-one": (SLSP, "            (EstimatedLimit::Max, Self::Unchanged) => {\n                let increased = (n + 1) / 2;", "            (EstimatedLimit::Max, Self::Unchanged) => {\n                let increased = n / 2;", ["C14"]),
  "c14-no-remove-last-epoch": (SLSP, "        let details = self.split_epochs(limit, n, k).remove_last_epoch();", "        let details = self.split_epochs(limit, n, k);", ["C14"]),
+ "c17-set-scripts-lock-late": (SERVICE, """        let mut matched_blocks = self.swc.matched_blocks().write().expect("poisoned");
+        let scripts = scripts.into_iter().map(Into::into).collect();
+        self.swc
+            .storage()
+            .update_filter_scripts(scripts, command.map(Into::into).unwrap_or_default());
+        matched_blocks.clear();""", """        let scripts = scripts.into_iter().map(Into::into).collect();
+        self.swc
+            .storage()
+            .update_filter_scripts(scripts, command.map(Into::into).unwrap_or_default());
+        let mut matched_blocks = self.swc.matched_blocks().write().expect("poisoned");
+        matched_blocks.clear();""", ["C17"]),
+ "c17-send-block-lock-released-before-indexing": (SYNC, """                    assert_eq!(blocks.len(), db_blocks.len());
+                    info!(""", """                    assert_eq!(blocks.len(), db_blocks.len());
+                    drop(matched_blocks);
+                    info!(""", ["C17"], [("""                    self.storage.remove_matched_blocks(start_number);
+
+                    // send more""", """                    self.storage.remove_matched_blocks(start_number);
+                    let mut matched_blocks = self.peers.matched_blocks().write().expect("poisoned");
+
+                    // send more""")]),
  "c15-lambda-5": (SAMPLING, "const LAMBDA: u32 = 50;", "const LAMBDA: u32 = 5;", ["C15"]),
  "c15-no-boundary-clamp": (SAMPLING, "        if sample >= self.difficulty_boundary {\n            &self.difficulty_boundary - 1u32\n        } else {\n            sample\n        }", "        sample", ["C15"]),
  "c15-last-n-branch-lt": (LC, "        let content = if last_number - start_number <= last_n_blocks {\n            let last_n_headers = self.storage.get_last_n_headers();", "        let content = if last_number - start_number < last_n_blocks {\n            let last_n_headers = self.storage.get_last_n_headers();", ["C15"]),
@@ -59,13 +79,18 @@ def gen():
     sh("git", "-C", "/repo", "worktree", "remove", "--force", wt)
     r = sh("git", "-C", "/repo", "worktree", "add", "--detach", wt, "HEAD")
     assert r.returncode == 0, r.stderr
-    for name, (f, old, new, checks) in M.items():
+    for name, spec in M.items():
+        f, old, new, checks = spec[:4]
+        extra = spec[4] if len(spec) > 4 else []
         p = os.path.join(wt, f)
         s = open(p).read()
-        if s.count(old) != 1:
+        if s.count(old) != 1 or any(s.count(o) != 1 for o, _ in extra):
             print("SKIP %s: pattern occurs %d times" % (name, s.count(old)))
             continue
-        open(p, "w").write(s.replace(old, new))
+        s = s.replace(old, new)
+        for o, n in extra:
+            s = s.replace(o, n)
+        open(p, "w").write(s)
         d = sh("git", "-C", wt, "diff").stdout
         open("/verif/mutants/%s.diff" % name, "w").write(d)
         sh("git", "-C", wt, "checkout", "--", ".")
@@ -85,7 +110,7 @@ def run(names):
     results = json.load(open(resfile)) if os.path.exists(resfile) else {}
     env = dict(os.environ, LCV_REPO=repo, LCV_TARGET_DIR=verif + "/harness/target", LCV_KNOWN=verif + "/known_findings.json", LCV_VERIF=verif)
     for name in names:
-        f, old, new, checks = M[name]
+        f, old, new, checks = M[name][:4]
         a = sh("git", "-C", repo, "apply", "/verif/mutants/%s.diff" % name)
         if a.returncode != 0:
             print(name, "does not apply", a.stderr[:200]); continue
